@@ -116,6 +116,12 @@ def corpus():
                                            E('cmp', d=0, up=False), E('new', code=[a, a]), E('bzip', p=1),
                                            E('cmp', d=1, up=True), E('dmg', d=0, how='trunc', at=0.5)],
              name='sticky-diff'),
+        # two compares that find the device up to date, under two policies with different code (manual change in between),
+        # then a policy with the first code again: the second compare is the latest conclusive observation
+        dict(ndev=1, init=[a], events=[E('cmp', d=0, up=True), E('new', code=[b]), E('drift', d=0), E('cmp', d=0, up=True),
+                                        E('new', code=[a])], name='second-uptodate-compare'),
+        dict(ndev=2, init=[a, a], events=[E('aok', d=1), E('cmp', d=0, up=True), E('new', code=[b, a]), E('cmp', d=0, up=True),
+                                           E('cmp', d=0, up=True), E('bzip', p=1), E('new', code=[a, a])], name='second-uptodate-compare-2'),
     ]
 
 
